@@ -1,5 +1,5 @@
 (* Proofs about Model/SamplerSel.v (C14). *)
-From Refinery Require Import Lib.Base Model.TraceKey Proofs.TraceKey Model.SamplerSel.
+From Refinery Require Import Lib.Base Lib.Strs_samp Model.SamplerSel.
 From Refinery Require Gen.GenC14.
 
 (* ---------- what the translator must have found ---------- *)
@@ -9,7 +9,7 @@ Lemma gen_c14_ok :
   GenC14.sampler_key_shape = true /\ GenC14.lookup_config_shape = true /\
   GenC14.lookup_fields_shape = true /\ GenC14.ingest_shape = true /\ GenC14.decide_shape = true /\
   GenC14.memoize_before_decision = true /\ GenC14.trace_takes_first_span_destination = true /\
-  GenC14.factory_uses_lookup = true /\ GenC14.key_fields_shape = true /\
+  GenC14.factory_uses_lookup = true /\ GenC14.key_fields_shape = true /\ GenC14.empty_names_skipped = true /\
   GenC14.root_prefix = "root."%string /\ GenC14.computed_prefix = "?."%string /\
   GenC14.sampler_choice_order =
     [["v.DeterministicSampler != nil"]; ["v.RulesBasedSampler != nil"]; ["v.DynamicSampler != nil"];
@@ -127,8 +127,8 @@ Qed.
 Lemma nonroot_extracted fields f :
   In f (snd (get_key_fields fields)) -> In f (fst (get_key_fields fields)).
 Proof.
-  unfold get_key_fields.
-  set (rootf := map _ _). set (nonroot := filter _ _).
+  unfold get_key_fields. cbv zeta.
+  set (rootf := map _ _). set (nonroot := filter (fun f0 => negb (has_prefix ROOTP14 f0) && negb (has_prefix COMPP f0)) _).
   destruct rootf as [|a ra]; destruct nonroot as [|b rb]; cbn [fst snd]; intros H.
   - exact H.
   - exact H.
@@ -141,24 +141,30 @@ Lemma root_extracted fields f :
   In f fields -> has_prefix ROOTP14 f = true ->
   In (skipn (length ROOTP14) f) (fst (get_key_fields fields)).
 Proof.
-  intros Hin Hp. unfold get_key_fields.
+  intros Hin Hp. unfold get_key_fields. cbv zeta.
+  assert (In f (filter (fun g => negb (str_eqb g [])) fields)) as Hin'.
+  { apply filter_In. split; [exact Hin|]. destruct f; [discriminate Hp|reflexivity]. }
+  set (fields' := filter (fun g => negb (str_eqb g [])) fields) in *.
   assert (In (skipn (length ROOTP14) f)
-             (map (fun g => skipn (length ROOTP14) g) (filter (has_prefix ROOTP14) fields))) as Hr.
+             (map (fun g => skipn (length ROOTP14) g) (filter (has_prefix ROOTP14) fields'))) as Hr.
   { apply in_map. apply filter_In. split; assumption. }
-  set (rootf := map _ _) in *. set (nonroot := filter _ _).
+  set (rootf := map _ _) in *. set (nonroot := filter (fun g => negb (has_prefix ROOTP14 g) && negb (has_prefix COMPP g)) fields').
   destruct rootf as [|a ra]; [destruct Hr|].
   destruct nonroot as [|b rb]; cbn [fst]; apply compact_In; apply in_or_app; left; exact Hr.
 Qed.
 
 (* every plain field of the definition is extracted *)
 Lemma plain_extracted fields f :
-  In f fields -> has_prefix ROOTP14 f = false -> has_prefix COMPP f = false ->
+  In f fields -> f <> [] -> has_prefix ROOTP14 f = false -> has_prefix COMPP f = false ->
   In f (fst (get_key_fields fields)).
 Proof.
-  intros Hin H1 H2. apply nonroot_extracted. unfold get_key_fields.
-  assert (In f (filter (fun g => negb (has_prefix ROOTP14 g) && negb (has_prefix COMPP g)) fields)) as Hn.
-  { apply filter_In. split; [exact Hin|]. rewrite H1, H2. reflexivity. }
-  set (rootf := map _ _). set (nonroot := filter _ _) in *.
+  intros Hin Hne H1 H2. apply nonroot_extracted. unfold get_key_fields. cbv zeta.
+  assert (In f (filter (fun g => negb (str_eqb g [])) fields)) as Hin'.
+  { apply filter_In. split; [exact Hin|]. destruct f; [contradiction|reflexivity]. }
+  set (fields' := filter (fun g => negb (str_eqb g [])) fields) in *.
+  assert (In f (filter (fun g => negb (has_prefix ROOTP14 g) && negb (has_prefix COMPP g)) fields')) as Hn.
+  { apply filter_In. split; [exact Hin'|]. rewrite H1, H2. reflexivity. }
+  set (rootf := map _ _). set (nonroot := filter (fun g => negb (has_prefix ROOTP14 g) && negb (has_prefix COMPP g)) fields') in *.
   destruct rootf as [|a ra]; destruct nonroot as [|b rb]; cbn [snd]; try exact Hn; destruct Hn.
 Qed.
 
